@@ -1,12 +1,13 @@
 #!/bin/sh
-# Offline warm-up: compile the harness crates once with Kani (codegen only). Not required for
-# correctness: every check rebuilds whatever changed in /repo or /verif.
-set -e
+# Offline warm-up: build the dependencies of the harness crates once with Kani's toolchain by
+# running one tiny harness per crate. Not required for correctness: every check rebuilds whatever
+# changed in /repo or /verif.
 cd "$(dirname "$0")"
 export CARGO_NET_OFFLINE=true
+python3 gen/generate.py >/dev/null 2>&1
 for c in kani kani_abi; do
   [ -d "$c" ] || continue
   [ -f "$c/Cargo.lock" ] || cp /repo/Cargo.lock "$c/Cargo.lock"
-  (cd "$c" && cargo kani -Z stubbing -Z unstable-options --only-codegen --target-dir "../.build/$c" >/dev/null 2>&1) || echo "warm-up of $c failed (checks will rebuild)"
+  (cd "$c" && cargo kani -Z stubbing -Z unstable-options --harness warmup::warmup --exact --target-dir "../.build/$c" --cbmc-args --max-field-sensitivity-array-size 4096 >/dev/null 2>&1) || echo "warm-up of $c failed (checks will rebuild)"
 done
 exit 0
